@@ -37,8 +37,10 @@ TRUSTED = ["harness/impl/pbc_impl.py (builds the Trajectory through the public A
            "translator harness/props/C05.py:translate (regex/ast over the named blocks; unparseable source = degraded)"]
 ASSUMPTIONS = [
     "float32 rounding inside the kernels is not modelled: distances are compared with the exact value under "
-    "tol = 2^-20*M + 2^-21*d (M = 2*(max|coordinate| + max|cell entry|)); lattice shifts are compared exactly only "
-    "outside a guard band of width tol around rounding ties (counted as excluded in the evidence)",
+    "tol = 2^-20*M + 2^-21*d (M = 2*(max|coordinate| + max|cell entry|)); when all coordinates and cell entries lie "
+    "on the 2^-10 nm grid float32 arithmetic up to the dot product is exact and tol = 2^-21*d; lattice shifts are "
+    "compared exactly outside a guard band of width tol around rounding ties of the wrap (counted as excluded); a "
+    "rounding tie of the box reduction (hexagonal cells, b_x = a_x/2) is compared against both resolutions",
     "cells are in mdtraj's standard orientation (a along x, b in the xy plane, positive diagonal); the Trajectory "
     "stores lengths/angles, so the cell the kernels see is the float32 read-back of traj.unitcell_vectors",
     "non-orthorhombic generated cells deviate from 90 degrees by more than 0.05 degrees: the np.allclose(angles, 90) "
@@ -476,7 +478,28 @@ def gen_pairs(rng, n_atoms, n_pairs):
     return pairs
 
 
+def _near_ortho_but_not(cell):
+    """True when some angle is within 0.05 degrees of 90 although the matching off-diagonal entries are not all zero
+    (the regime where np.allclose(angles, 90) and the exact test differ; kept out of the generated stream, probed
+    separately by the fixed 'near90' case)"""
+    a, b, c = cell
+    def ang(u, v):
+        nu, nv = math.sqrt(sum(x * x for x in u)), math.sqrt(sum(x * x for x in v))
+        return math.degrees(math.acos(max(-1.0, min(1.0, sum(x * y for x, y in zip(u, v)) / (nu * nv)))))
+    offdiag_zero = (b[0] == 0 and c[0] == 0 and c[1] == 0)
+    close = all(abs(ang(u, v) - 90) < 0.05 for u, v in ((b, c), (c, a), (a, b)))
+    return close and not offdiag_zero
+
+
 def gen_case(rng, kind, tier):
+    while True:
+        c = _gen_case(rng, kind, tier)
+        if not any(_near_ortho_but_not(cell) for cell in
+                   [[[int(round(v * U)) for v in row] for row in f] for f in (c["box"] + c["raw_box"])]):
+            return c
+
+
+def _gen_case(rng, kind, tier):
     n_frames = rng.choice([1, 2, 3])
     n_atoms = rng.randint(2, 7)
     perframe = rng.random() < 0.5
@@ -561,7 +584,7 @@ def fixed_cases():
 
 def build_cases(ctx):
     rng = ctx.rng
-    n = 8 if ctx.tier == "quick" else 130
+    n = 8 if ctx.tier == "quick" else 200
     cases = fixed_cases()
     for kind in CELL_KINDS:
         for _ in range(n if kind != "triclinic" else 3 * n):
